@@ -2,6 +2,7 @@ INIT Init
 NEXT MCNext
 CONSTANTS
   Stacks <- Stacks3
+  Indeps <- Both
   Targets <- AllTargets
   MaxHooks = 2
   InitRegs <- C3Regs
